@@ -116,6 +116,178 @@ def deliver(mode, stream, cuts, timeouts, empties=()):
     return e
 
 
+# ---- the synchronous path: Screen.get_input() without an event loop, on a pipe, under a clock the driver controls ---------------
+class _WouldBlockForever(Exception):
+    """The call would sleep with no timeout while nothing will ever arrive: the scenario is over."""
+
+
+class _Clock:
+    """Virtual time in milliseconds + the schedule of arrivals [(time, bytes)] written to the pipe when due."""
+
+    def __init__(self, arrivals, wfd):
+        import os
+
+        self._os = os
+        self.now = 0
+        self.queue = sorted(arrivals, key=lambda x: x[0])
+        self.wfd = wfd
+        self.unread = []          # arrival times of chunks written to the pipe and not yet read by the screen
+
+    def deliver_due(self):
+        while self.queue and self.queue[0][0] <= self.now:
+            t, b = self.queue.pop(0)
+            self._os.write(self.wfd, bytes(b))
+            self.unread.append(t)
+
+    def sleep(self, ms):
+        self.now += ms
+        self.deliver_due()
+
+
+class _Selectors:
+    """Stand-in for the `selectors` module inside urwid.display._raw_display_base: select(timeout) looks at the real descriptors
+    (non-blocking) and, instead of sleeping, moves the virtual clock to the next arrival or to the end of the timeout."""
+
+    def __init__(self, clock):
+        import selectors
+
+        self._real = selectors
+        self.EVENT_READ = selectors.EVENT_READ
+        self.EVENT_WRITE = selectors.EVENT_WRITE
+        self.clock = clock
+        outer = self
+
+        class Sel:
+            def __init__(self):
+                self.sel = outer._real.DefaultSelector()
+
+            def __enter__(self):
+                return self
+
+            def __exit__(self, *a):
+                self.sel.close()
+
+            def close(self):
+                self.sel.close()
+
+            def register(self, *a, **kw):
+                return self.sel.register(*a, **kw)
+
+            def unregister(self, *a, **kw):
+                return self.sel.unregister(*a, **kw)
+
+            def select(self, timeout=None):
+                clock = outer.clock
+                clock.deliver_due()
+                ready = self.sel.select(0)
+                if ready or (timeout is not None and timeout <= 0):
+                    return ready
+                limit = None if timeout is None else clock.now + int(round(timeout * 1000))
+                if clock.queue and (limit is None or clock.queue[0][0] <= limit):
+                    clock.now = clock.queue[0][0]
+                    clock.deliver_due()
+                    return self.sel.select(0)
+                if limit is None:
+                    raise _WouldBlockForever
+                clock.now = limit
+                return []
+
+        self.DefaultSelector = Sel
+
+
+def sync_run(mode, maxwait, cw, rawkeys, think, arrivals, last_call_by, max_calls=400):
+    """A real raw_display.Screen reading a pipe; set_input_timeouts(max_wait = maxwait ms or None, complete_wait = cw ms); the
+    application calls get_input() (or get_input(raw_keys=True)) again and again, spending `think` ms between two calls, while
+    the chunks of `arrivals` [(ms, bytes)] arrive.  Calls that could only find nothing are made while they can return by
+    `last_call_by`.  Returns a trace for InputSyncTrace."""
+    import os
+
+    import urwid
+    from urwid.display import _raw_display_base as base
+    from urwid.display import raw
+
+    urwid.set_encoding(MODES[mode])
+    rfd, wfd = os.pipe()
+    rfile = os.fdopen(rfd, "rb", buffering=0)
+    clock = _Clock([(t, bytes(b)) for t, b in arrivals], wfd)
+    real_selectors = base.selectors
+    ev = []
+    try:
+        base.selectors = _Selectors(clock)
+        scr = raw.Screen(input=rfile, output=io.StringIO())
+        scr.set_input_timeouts(max_wait=None if maxwait is None else maxwait / 1000.0, complete_wait=cw / 1000.0)
+        scr._started = True
+        reads = []
+        orig_read = scr._read_raw_input
+
+        def read_raw_input(timeout):
+            chars = orig_read(timeout)
+            if chars:
+                reads.append({"t": clock.now, "a": clock.unread[0] if clock.unread else clock.now, "b": list(chars)})
+                clock.unread.clear()
+            return chars
+
+        scr._read_raw_input = read_raw_input
+        for _ in range(max_calls):
+            if not clock.queue and not clock.unread:
+                # nothing more will arrive: only calls that find nothing to read remain
+                if maxwait is None or clock.now + maxwait > last_call_by:
+                    break
+            e = {"t": "call", "t0": clock.now, "exc": "", "out": [], "raw": []}
+            del reads[:]
+            try:
+                res = scr.get_input(raw_keys=True) if rawkeys else scr.get_input()
+                keys, rawc = res if rawkeys else (res, [])
+                e["out"] = [abstract(k) for k in keys]
+                e["raw"] = list(rawc)
+            except _WouldBlockForever:
+                break
+            except Exception as ex:  # noqa: BLE001
+                e["exc"] = type(ex).__name__
+            e["t1"] = clock.now
+            e["reads"] = list(reads)
+            e["carried"] = len(scr._partial_codes)      # observation for the coverage counters only (the specification does not read it)
+            ev.append(e)
+            if e["exc"]:
+                break
+            clock.sleep(think)
+    finally:
+        base.selectors = real_selectors
+        os.close(wfd)
+        rfile.close()
+    stream = [x for _, b in arrivals for x in b]
+    return {"mode": mode, "cw": cw, "maxwait": -1 if maxwait is None else maxwait, "rawkeys": 1 if rawkeys else 0, "think": think,
+            "arrivals": [[t, list(b)] for t, b in arrivals], "last_call_by": last_call_by, "stream": stream, "ev": ev}
+
+
+def sync_scenario(rng, mode, stream, expiry, all_cuts_mask=None):
+    """Cut `stream`, choose arrival times, max_wait, think time and how long the application goes on calling.
+    expiry False: every gap is shorter than complete_wait and no call returns at or after the completion timeout of what is
+    carried (the remainder always arrives in time); True: gaps and the calls after the last chunk may exceed it."""
+    stream = list(stream)
+    n = len(stream)
+    cw = rng.choice((100, 100, 60, 250))
+    if all_cuts_mask is not None:
+        cuts = [i + 1 for i in range(n - 1) if all_cuts_mask >> i & 1]
+    else:
+        k = rng.randint(1, min(4, n - 1)) if n > 1 else 0
+        cuts = sorted(rng.sample(range(1, n), k)) if k else []
+    bounds = [0, *cuts, n]
+    maxwait = rng.choice((None, 0, 0, max(1, cw // 10), cw // 2, cw - 1, cw, 3 * cw))
+    think = rng.choice((0, 3, cw // 4)) if maxwait != 0 else rng.choice((cw // 6, cw // 3, cw // 2))
+    t = rng.choice((0, 5, 2 * cw))
+    arrivals = []
+    for i in range(len(bounds) - 1):
+        arrivals.append((t, stream[bounds[i]:bounds[i + 1]]))
+        if expiry and rng.random() < 0.4:
+            t += rng.choice((cw, cw + 1, 2 * cw, 5 * cw))
+        else:
+            t += rng.choice((0, 1, cw // 5, cw // 2, cw - think - 2 if cw - think - 2 > 0 else 1, cw - 1))
+    last = arrivals[-1][0]
+    last_call_by = last + (rng.choice((cw, 2 * cw, 4 * cw)) if expiry else cw - 1 - think)
+    return sync_run(mode, maxwait, cw, rng.random() < 0.5, think, arrivals, last_call_by)
+
+
 def trace_for(rng, mode, stream, nfrag, refcheck=True, all_cuts=False):
     stream = list(stream)
     ev = [dict(deliver(mode, stream, [], []), t="whole")]
@@ -189,6 +361,37 @@ for _rep in (b"\x1b[3;7R", b"\x1b[24;80R", b"\x1b[M !!", b"\x1b[M#\x7f\x7f", b"\
     GARBAGE.append(b"\x1b" + _rep)
     GARBAGE.append(b"\x1b\x1b" + _rep)
 
+SYNC_KINDS = {
+    "utf8": [b"\x1b[A", b"\x1bOP", b"\x1b[5;5~", b"\x1b[M #$", b"\x1b[<0;7;9M", b"\x1b[12;40R", "\u20ac".encode(), "\U0001f600".encode(), b"\x1bx",
+             b"\x1b" + "\xe9".encode(), b"a\x1b[B"],
+    "narrow": [b"\x1b[A", b"\x1b[15~", b"\x1b[M #$", b"\x1b[<35;10;20m", b"\x1b[3;7R", b"\x1bx", b"\xe9\x1bOQ"],
+    "wide": [b"\x1b[A", b"\xb0\xa1", b"\x81\x40", b"\x1b\xa4\xa2", b"\x1b[M #$", b"\x1b[<0;7;9M", b"\x1b[24;80R", b"\xa4\xa2\x1b[B"],
+}
+
+
+def sync_grid(mode):
+    """Every kind of multi-byte item cut at every single point, one gap shorter than complete_wait between the two parts, for every
+    kind of max_wait (None, polling, shorter than / equal to / longer than complete_wait), with and without raw_keys."""
+    out = []
+    cw = 100
+    for i, atom in enumerate(SYNC_KINDS[mode]):
+        for cut in range(1, len(atom)):
+            for j, maxwait in enumerate((None, 0, 10, cw - 1, cw, 3 * cw)):
+                gap = (50, 99, 20)[(i + cut + j) % 3]
+                think = (7, 0, 30)[(i + j) % 3] if maxwait != 0 else (7, 30)[(i + cut) % 2]
+                arrivals = [(5, list(atom[:cut])), (5 + gap, list(atom[cut:]))]
+                out.append(sync_run(mode, maxwait, cw, (i + cut + j) % 2 == 0, think, arrivals, 5 + gap + cw - 1 - think))
+    return out
+
+
+SYNC_CFG = """CONSTANTS MaxLen = {n} Mode = "{mode}" CW = 2 GapMax = 3 Design = "{d}"
+MaxWaits = {{0, 1, 3, 99}}
+Alphabet = {alpha}
+SPECIFICATION Spec
+{invs}
+CHECK_DEADLOCK FALSE
+"""
+
 MC_CFG = """CONSTANTS MaxLen = {n} Mode = "{mode}" MidTimeouts = {mid}
 Alphabet = {alpha}
 SPECIFICATION Spec
@@ -197,6 +400,20 @@ INVARIANT TailIsSuffix
 CHECK_DEADLOCK FALSE
 """
 ALPHA = [27, 91, 79, 65, 49, 59, 126, 77, 60, 82, 97, 195, 169, 50]
+
+
+def _handle_sync(chk, traces, res):
+    for ti, l, why in res.rejects:
+        tr = traces[ti]
+        e = tr["ev"][l - 1]
+        s = bytes(tr["stream"])
+        idle = not e.get("reads")
+        sig = {"path": "sync", "mode": tr["mode"], "exc": e["exc"], "max_wait": "none" if tr["maxwait"] < 0 else tr["maxwait"],
+               "max_wait_shorter_than_complete_wait": 0 <= tr["maxwait"] < tr["cw"], "call_read_nothing": idle, "raw_keys": bool(tr["rawkeys"]),
+               "high_bytes": any(b >= 128 for b in s)}
+        chk.reject(f"C05.{why}", sig, {"path": "sync", "mode": tr["mode"], "cw": tr["cw"], "maxwait": tr["maxwait"], "rawkeys": tr["rawkeys"], "think": tr["think"],
+                                       "arrivals": tr["arrivals"], "last_call_by": tr["last_call_by"], "rejected_call": l, "observed": e,
+                                       "calls_before": tr["ev"][max(0, l - 6):l - 1]})
 
 
 def _handle(chk, traces, res):
@@ -214,23 +431,51 @@ def run(chk):
     quick = chk.tier == "quick"
     rng = chk.rng
     alpha = "{" + ", ".join(map(str, ALPHA)) + "}"
-    r = tlc.mc("InputDecoder", MC_CFG.format(n=4 if quick else 5, mode="utf8", mid="FALSE", alpha=alpha), timeout=3000, heap="12g")
-    chk.add_mc("MC_InputDecoder_fragmentation", r)
-    if not r.ok:
-        chk.reject("C05.model." + str(r.violated), {"model": "InputDecoder"}, {"tlc_trace": r.trace[-5:]})
-    r2 = tlc.mc("InputDecoder", MC_CFG.format(n=3 if quick else 4, mode="narrow", mid="TRUE", alpha=alpha).replace("INVARIANT SameAsWhole\n", ""), timeout=3000)
-    chk.add_mc("MC_InputDecoder_mid_timeouts", r2)
-    if not r2.ok:
-        chk.reject("C05.model." + str(r2.violated), {"model": "InputDecoder"}, {"tlc_trace": r2.trace[-5:]})
+    import concurrent.futures
+
+    tpool = concurrent.futures.ThreadPoolExecutor(4)
     walpha = "{27, 91, 65, 164, 129, 128, 64, 63, 126, 127}"      # leads 128/129/164, second halves at both range boundaries
-    r3 = tlc.mc("InputDecoder", MC_CFG.format(n=4 if quick else 5, mode="wide", mid="FALSE", alpha=walpha), timeout=3000, heap="12g")
-    chk.add_mc("MC_InputDecoder_fragmentation_double_byte", r3)
-    if not r3.ok:
-        chk.reject("C05.model." + str(r3.violated), {"model": "InputDecoder"}, {"tlc_trace": r3.trace[-5:]})
+
+    def decoder_models():
+        # one after the other, while the driver records traces
+        return [tlc.mc("InputDecoder", MC_CFG.format(n=4 if quick else 5, mode="utf8", mid="FALSE", alpha=alpha), workers=6, timeout=3000, heap="12g"),
+                tlc.mc("InputDecoder", MC_CFG.format(n=3 if quick else 4, mode="narrow", mid="TRUE", alpha=alpha).replace("INVARIANT SameAsWhole\n", ""), workers=6, timeout=3000),
+                tlc.mc("InputDecoder", MC_CFG.format(n=4 if quick else 5, mode="wide", mid="FALSE", alpha=walpha), workers=6, timeout=3000, heap="12g")]
+
+    f_dec = tpool.submit(decoder_models)
+    # design model of the synchronous path over time: the contract's design holds, the two wrong designs are refuted
+    salpha = "{27, 91, 65, 97, 195, 169}"
+    sn = 3 if quick else 4
+
+    def sync_cfg(design, invs, mode="utf8", alpha=salpha):
+        return SYNC_CFG.format(n=sn, mode=mode, d=design, alpha=alpha, invs="\n".join("INVARIANT " + i for i in invs))
+
+    f_sync = [tpool.submit(tlc.mc, "InputSync", sync_cfg("deadline", ["SameAsWhole", "FlushedWhenExpired", "TailIsSuffix", "CallsFollowContract"]), workers=4, timeout=2400),
+              tpool.submit(tlc.mc, "InputSync", sync_cfg("idle_flush", ["SameAsWhole"]), workers=2, timeout=2400),
+              tpool.submit(tlc.mc, "InputSync", sync_cfg("never", ["FlushedWhenExpired"]), workers=2, timeout=2400)]
     traces = []
+    straces = []
+    import random
+
+    srng = random.Random(chk.seed * 7919 + 5)      # own stream: the families below draw what they drew before this family existed
     for mode in MODES:
         atoms = documented_atoms(mode)
         refcheck = True
+        # ---- synchronous path (get_input on a pipe, driver's clock) ----
+        multi = [a for a in atoms if len(a) > 1]
+        straces += sync_grid(mode)
+        for _ in range(120 if quick else 3000):       # one item, random cut and timing, the remainder always in time
+            straces.append(sync_scenario(srng, mode, srng.choice(multi), False))
+        for _ in range(100 if quick else 3000):       # several items
+            s = b"".join(srng.choice(atoms) for _ in range(srng.randint(2, 4)))
+            straces.append(sync_scenario(srng, mode, s, False))
+        for _ in range(40 if quick else 1000):        # truncated items followed by something else
+            a = srng.choice(multi)
+            straces.append(sync_scenario(srng, mode, a[:srng.randint(1, len(a))] + srng.choice(atoms), False))
+        for _ in range(50 if quick else 1500):        # the completion timeout does expire: in the middle or at the end
+            a = srng.choice(multi)
+            s = srng.choice((a[:srng.randint(1, len(a) - 1)], a, a[:srng.randint(1, len(a) - 1)] + srng.choice(atoms), srng.choice(GARBAGE)))
+            straces.append(sync_scenario(srng, mode, s, True))
         # every documented atom on its own, every cut
         for a in atoms:
             traces.append(trace_for(rng, mode, a, 0, refcheck, all_cuts=True))
@@ -253,10 +498,46 @@ def run(chk):
             cut = rng.randint(1, len(a))
             s = a[:cut] + rng.choice(atoms)
             traces.append(trace_for(rng, mode, s, 2, refcheck))
+    for name, r in zip(("MC_InputDecoder_fragmentation", "MC_InputDecoder_mid_timeouts", "MC_InputDecoder_fragmentation_double_byte"), f_dec.result()):
+        chk.add_mc(name, r)
+        if not r.ok:
+            chk.reject("C05.model." + str(r.violated), {"model": "InputDecoder"}, {"tlc_trace": r.trace[-5:]})
+    f_sres = tpool.submit(tlc.validate, "InputSyncTrace", straces, batch_events=6000, jobs=3, timeout=2400)
     res = tlc.validate("InputTrace", traces, batch_events=6000, timeout=2400)
     chk.add_tv("TV_InputTrace", res)
     _handle(chk, traces, res)
+    sres = f_sres.result()
+    chk.add_tv("TV_InputSyncTrace", sres)
+    _handle_sync(chk, straces, sres)
+    for name, f, must_hold in (("MC_InputSync_deadline_design", f_sync[0], True), ("MC_InputSync_refute_flush_on_idle_call", f_sync[1], False),
+                               ("MC_InputSync_refute_never_flushes", f_sync[2], False)):
+        r = f.result()
+        chk.add_mc(name, r)
+        if must_hold and not r.ok:
+            chk.reject("C05.model." + str(r.violated), {"model": "InputSync"}, {"tlc_trace": r.trace[-5:]})
+        if not must_hold and r.ok:
+            chk.vacuity.append("model.InputSync: " + name + " not refuted")
+    tpool.shutdown()
     kinds = {}
+    rejected = {ti: l for ti, l, _ in sres.rejects}
+    for ti, t in enumerate(straces):
+        mw = "none" if t["maxwait"] < 0 else "poll" if t["maxwait"] == 0 else "short" if t["maxwait"] < t["cw"] else "long"
+        carried = 0      # bytes the screen carried when the call started
+        tl = 0
+        for i, e in enumerate(t["ev"]):
+            if ti in rejected and i >= rejected[ti]:
+                break
+            kinds["sync.call"] = kinds.get("sync.call", 0) + 1
+            if not e["reads"] and carried:
+                k = "sync.idle_call_while_bytes_carried." + mw + (".before_expiry" if e["t1"] - tl < t["cw"] else ".expired")
+                kinds[k] = kinds.get(k, 0) + 1
+            if e["reads"]:
+                if carried:
+                    kinds["sync.remainder_read_while_bytes_carried"] = kinds.get("sync.remainder_read_while_bytes_carried", 0) + 1
+                tl = e["reads"][-1]["t"]
+            carried = e.get("carried", 0)
+            if t["rawkeys"]:
+                kinds["sync.raw_keys_call"] = kinds.get("sync.raw_keys_call", 0) + 1
     nontriv = set()
     for t in traces:
         for e in t["ev"]:
@@ -266,14 +547,26 @@ def run(chk):
             for o in e["out"]:
                 kinds["out." + o["k"]] = kinds.get("out." + o["k"], 0) + 1
     chk.cov["clause_counts"] = kinds
+    for v in ("sync.idle_call_while_bytes_carried.poll.before_expiry", "sync.idle_call_while_bytes_carried.short.before_expiry",
+              "sync.remainder_read_while_bytes_carried", "sync.raw_keys_call"):
+        if not kinds.get(v):
+            chk.vacuity.append("driver." + v)
+    if not any(v for k, v in kinds.items() if k.startswith("sync.idle_call_while_bytes_carried.") and k.endswith(".expired")):
+        chk.vacuity.append("driver.sync.idle_call_after_complete_wait_expired")
     chk.cov["distinct_nontrivial"] = len(nontriv)
     chk.cov["rule"] = ("streams: every documented table sequence / mouse report / CPR / character alone with every cut, concatenations of them, "
                        "garbage and truncations, random bytes; three encoding modes; non-trivial = distinct (mode, stream, cuts, timeouts) with at least one cut")
+    chk.cov["rule"] += ("; synchronous path: real Screen.get_input on a pipe under a virtual clock, max_wait in {None, 0, shorter, equal, longer than "
+                        "complete_wait}, every single cut of every kind of item + random cuts / timings, idle calls between the fragments")
+    chk.cov["bounds"] = dict(chk.cov.get("bounds") or {}, sync_traces=len(straces), sync_calls=kinds.get("sync.call", 0))
     chk.cov["exhaustive"] = True
     chk.sample({"mode": traces[5]["mode"], "stream": traces[5]["stream"], "events": traces[5]["ev"][:3]})
-    chk.cov["trusted_base"] = ["TLC", "InputTable.tla (frozen documented table)", "InputDecoderOps.tla reference decoder", "vf/props/c05.py Rig (real Screen.parse_input)"]
+    chk.cov["trusted_base"] = ["TLC", "InputTable.tla (frozen documented table)", "InputDecoderOps.tla reference decoder", "vf/props/c05.py Rig (real Screen.parse_input)",
+                               "InputSyncOps.tla (per-call contract of the synchronous path)", "vf/props/c05.py sync_run: virtual clock standing in for the selectors module of _raw_display_base"]
     chk.assumptions += ["in wide (double-byte) mode a byte >= 128 pairs with a following possible second half (128..255, or 64..126 after a lead >= 129): the pairing rule of urwid's documented double-byte handling, not of one particular encoding",
-                        "malformed mouse / cursor reports: result unspecified, only robustness and fragmentation invariance are checked"]
+                        "malformed mouse / cursor reports: result unspecified, only robustness and fragmentation invariance are checked",
+                        "synchronous path: no time passes inside Screen code except in select(); bytes that arrive before (or exactly at) the completion timeout of what is "
+                        "carried but are read at or after it are not judged (either order is defensible)"]
 
 
 def replay(chk, path):
@@ -281,6 +574,14 @@ def replay(chk, path):
 
     with open(path) as f:
         rp = json.load(f)["replay"]
+    if rp.get("path") == "sync":
+        tr = sync_run(rp["mode"], None if rp["maxwait"] < 0 else rp["maxwait"], rp["cw"], bool(rp["rawkeys"]), rp["think"],
+                      [(t, b) for t, b in rp["arrivals"]], rp["last_call_by"])
+        res = tlc.validate("InputSyncTrace", [tr], jobs=1)
+        chk.add_tv("replay", res)
+        _handle_sync(chk, [tr], res)
+        chk.sample({k: tr[k] for k in ("mode", "cw", "maxwait", "arrivals")})
+        return chk.finish()
     rng = random.Random(1)
     ev = [dict(deliver(rp["mode"], rp["stream"], [], []), t="whole")]
     if rp.get("cuts") is not None:
